@@ -2,7 +2,7 @@ SPEC = dict(
     props_file="Props/C11.v",
     level="proof",
     observers=[dict(cmd="obs_batch", imports=["Model.CacheBatch"], case_type="CacheBatch.case", check="CacheBatch.check_case",
-                    n={"quick": 400, "thorough": 6000}, shard=25)],
+                    n={"quick": 400, "thorough": 6000}, shard=200)],
     rule="generated batches over a key universe (strings, missing keys, wrong-type keys, JSON documents) with duplicates, "
          "pre-warmed hits, flights of another caller held open by a stalled server, static-TTL commands (none / all / mixed), "
          "run on REAL clients: one connection, PipelineMultiplex 2/4/8 connections, lru and SimpleCacheAdapter stores, OPTIN and "
